@@ -126,14 +126,26 @@ def _guarded_check(mod, case):
     """Run mod.check(case) under a per-case watchdog: a hung case makes the run inconclusive
     (harness error, exit 2), never a violation and never an endless run."""
     import signal
-    from vf.core import HarnessError
+    from vf.core import CaseTimeout
 
     def on_alarm(signum, frame):
-        raise HarnessError('case exceeded the %d s watchdog (inconclusive): %r' % (CASE_TIMEOUT, str(case.spec)[:400]))
+        raise CaseTimeout()
     old = signal.signal(signal.SIGALRM, on_alarm)
     signal.alarm(CASE_TIMEOUT)
     try:
         mod.check(case)
+        return True
+    except CaseTimeout:
+        # inconclusive, never a violation: the case is dropped and counted
+        case.fails = []
+        case.checked.clear()
+        case.inconclusive['case_timeout'] += 1
+        try:
+            with open(os.path.join(HERE, 'evidence', 'timeout_%s_%d.json' % (getattr(mod, 'ID', 'X'), os.getpid())), 'w') as f:
+                json.dump(dict(note='case exceeded the %d s watchdog' % CASE_TIMEOUT, spec=case.spec), f)
+        except Exception:
+            pass
+        return False
     finally:
         signal.alarm(0)
         signal.signal(signal.SIGALRM, old)
@@ -151,6 +163,11 @@ def run_shard(args):
         mod = _load(prop)
         known = load_known(prop)
         st = Shard()
+        if os.environ.get('VERIF_FAULT'):
+            import faulthandler
+            faulthandler.dump_traceback_later(
+                float(os.environ['VERIF_FAULT']), exit=True,
+                file=open(os.path.join(os.environ.get('VERIF_FAULT_DIR', '/tmp'), 'vf_fault_%d.txt' % os.getpid()), 'w'))
 
         @hseed(_shard_seed(seed, shard))
         @_settings(n, False)
